@@ -310,8 +310,11 @@ impl DeepClone for PdfStream {
             StreamInner::InFile { id, ref file_range } => cloner.stream_data(id, file_range.clone())?,
             StreamInner::Pending { ref data } => data.clone()
         };
+        let mut info = self.info.clone();
+        // the length of the data as it is now (decrypted), not of its encrypted form in the source file
+        info.insert("Length", Primitive::Integer(data.len() as i32));
         Ok(PdfStream {
-            info: self.info.deep_clone(cloner)?, inner: StreamInner::Pending { data }
+            info: info.deep_clone(cloner)?, inner: StreamInner::Pending { data }
         })
     }
 }
